@@ -483,7 +483,7 @@ impl<B: MysqlShim<RW>, RW: Read + Write> MysqlIntermediary<B, RW> {
                         )
                     })?;
                     {
-                        let params = params::ParamParser::new(params, state);
+                        let params = params::ParamParser::new(params, state)?;
                         let w = QueryResultWriter::new(&mut self.rw, true);
                         self.shim.on_execute(stmt, params, w)?;
                     }
